@@ -144,6 +144,25 @@ def run(ctx):
                     r2.ok("%s -> %s: cdr argument is tail-guarded (non-Cons arm of a match on that cdr)"
                           % (caller, callee), fn, t.get("line"))
                     continue
+                # the callee takes the cdr but goes on only into its car (`src[1].clone_detached()` clones the next
+                # cell without its successors): the depth of that recursion is nesting depth
+                cn = m.nodes[e["to"]]
+                cfn = lookup(db, cn) if cn["crate"] in LOCAL else None
+                if cfn is not None and cfn is not fn:
+                    pos = [k + 1 for k, a in enumerate(t["args"]) if common.place_local(a) in bad]
+                    flow = spine.param_flow(cfn, pos, carlike.get(cn["crate"], set()))
+                    passes_on = False
+                    for e2 in m.out.get(e["to"], []):
+                        if e2["to"] not in cs or e2["k"] not in ("call", "fnarg"):
+                            continue
+                        t2 = cfn.blocks[e2["bb"]]["term"]
+                        if t2["k"] == "call" and any(common.place_local(a) in flow for a in t2["args"]
+                                                     if common.place_local(a) is not None):
+                            passes_on = True
+                    if not passes_on:
+                        r2.ok("%s -> %s: the callee passes only the car of that argument on into the cycle"
+                              % (caller, callee), fn, t.get("line"))
+                        continue
                 # keyed by the calling function (not by the callee's name, which changes when the call is routed
                 # through a helper)
                 key = "%s | cdr-arg" % caller
